@@ -127,7 +127,7 @@ def run(ctx):
                  "observed": stats,
                  "monitor": "independent Python statement of C09 over the implementation log (vlib/looptimer.py: monitor)",
                  "presupposes_fixes": ["fixes/C09-timeout-clamp.patch", "fixes/C09-expire-saturate.patch",
-                                       "fixes/C09-run-pending-todo.patch"]}
+                                       "fixes/C09-run-pending-todo.patch", "fixes/C08-timer-del-forged-handle.patch"]}
     res.assumptions = ["CLOCK_MONOTONIC is virtual (wrapped clock_gettime / clock_getres), monotone, and fits in 64 bits of ns",
                        "epoll_wait is wrapped: no descriptors are ready, it returns after the scripted time (usually exactly the "
                        "timeout it was given)", "random() is an oracle (wrapped; non-zero check words)",
